@@ -54,6 +54,13 @@ Theorem C17_linearizable : forall (K V : Type) (keqb : K -> K -> bool)
 Proof. exact linearizable. Qed.
 Print Assumptions C17_linearizable.
 
+(* the access-by-access model performs no two conflicting accesses at the same time *)
+Theorem C17_model_race_free : forall (K V : Type) (keqb : K -> K -> bool)
+  (progs : nat -> list (bop K V)) (sched : list nat) (c : conf K V),
+  creach K V keqb (cinit K V progs) sched c -> ~ crace K V c.
+Proof. exact model_race_free. Qed.
+Print Assumptions C17_model_race_free.
+
 (* ... hence the final shared store satisfies the sequential specification for
    SOME merge of the goroutines' operation lists *)
 Theorem C17_final_store : forall (K V : Type) (keqb : K -> K -> bool),
